@@ -983,6 +983,7 @@ func genC07(g *G) {
 	genC07Retry(g)
 	genC07Net(g)
 	genC07Coord(g)
+	genC07Twins(g)
 }
 
 // genC07Coord: the static coordinator's first attempt through the real Execute, ready and fail messages interleaved —
@@ -1018,6 +1019,72 @@ func genC07Coord(g *G) {
 			}
 		}
 		g.Emit("coord1", []string{"ecdsa", "frost"}[i%2], me, itoa(1+g.Intn(n-1)), rsid, joinOr(ps, ","), joinOr(evs, ";"))
+	}
+}
+
+// c07Twin returns a peer id that differs from p but has the same base58 rendering at both ends (first 8 and last 8
+// characters — every abbreviation of a peer id, ShortString() among them, shows the same text for both): one character
+// in the middle of the rendering is changed until the result is again a well-formed peer id.
+func c07Twin(p peer.ID) peer.ID {
+	const alphabet = "123456789ABCDEFGHJKLMNPQRSTUVWXYZabcdefghijkmnopqrstuvwxyz"
+	s := p.Pretty()
+	for pos := len(s) / 2; pos < len(s)-8; pos++ {
+		for _, ch := range alphabet {
+			if byte(ch) == s[pos] {
+				continue
+			}
+			t := s[:pos] + string(ch) + s[pos+1:]
+			if q, err := peer.Decode(t); err == nil && q != p && q.Pretty() == t {
+				return q
+			}
+		}
+	}
+	panic("no twin for " + s)
+}
+
+// genC07Twins: messages from a peer whose id looks like the coordinator's in every abbreviated rendering (and from the
+// look-alike of this relayer itself) are messages from ANOTHER peer: ignored.
+func genC07Twins(g *G) {
+	sid := c07Sids[0]
+	ord := c07Order(c07PeerList("0,1,2"), sid)
+	c, self, o := c07Tok(ord[0]), c07Tok(ord[1]), c07Tok(ord[2])
+	tc := c07Twin(ord[0]).Pretty()
+	alpha := []string{"i" + c, "s" + c + ":1", "f" + c, "i" + tc, "s" + tc + ":2", "x" + tc, "f" + tc, "f" + o}
+	c07Seqs(alpha, g.Count(2, 3), func(seq []string) {
+		g.Emit("wait", self, hx([]byte(sid)), "0,1,2", joinOr(seq, ";"))
+	})
+	// second attempt (following the re-elected coordinator / coordinating) and the static coordinator's first attempt
+	ord4 := c07Order(c07PeerList("0,1,2,3"), sid)
+	hi, lo := c07Tok(ord4[1]), c07Tok(ord4[3])
+	thi := c07Twin(ord4[1]).Pretty()
+	for _, seq := range []string{"f" + thi, "i" + thi + ";s" + thi + ":4;f" + thi + ";i" + hi + ";f" + thi + ";s" + hi + ":5;f" + thi} {
+		g.Emit("retry2", lo, "1", hx([]byte(sid)), "0,1,2,3", "silent", hi, seq)
+	}
+	t0 := c07Twin(ord4[0]).Pretty()
+	for _, seq := range []string{"f" + t0, "r" + hi + ";f" + t0, "f" + t0 + ";r" + hi + ";f" + t0 + ";r" + lo} {
+		g.Emit("coord1", "ecdsa", c07Tok(ord4[0]), "1", hx([]byte(sid)), "0,1,2,3", seq)
+	}
+	for i := 0; i < g.Count(60, 3000); i++ {
+		n := 2 + g.Intn(5)
+		ps := c07RandPeers(g, n)
+		rsid := c07RandSid(g)
+		ro := c07Order(c07PeerList(joinOr(ps, ",")), c07Sid(rsid))
+		me := c07Tok(ro[1+g.Intn(n-1)])
+		co := c07Tok(ro[0])
+		twin := c07Twin(ro[0]).Pretty()
+		evs := []string{}
+		for j, m := 0, 1+g.Intn(7); j < m; j++ {
+			from := []string{co, twin, twin, itoa(g.Intn(10))}[g.Intn(4)]
+			switch g.Intn(5) {
+			case 0:
+				evs = append(evs, "i"+from)
+			case 1:
+				evs = append(evs, "s"+from+":"+itoa(g.Intn(5)))
+			default:
+				evs = append(evs, "f"+from)
+			}
+		}
+		g.Emit("wait", me, rsid, joinOr(ps, ","), joinOr(evs, ";"))
 	}
 }
 
